@@ -33,7 +33,7 @@ macro_rules! props {
                 r.rule.push_str("; trait surface model: root -> one state per (family of provided trait functions, 4 keys, 5 messages (thorough 8), 3 schemes, variant), each calling the trait functions directly (not through the structs) and comparing values and verdicts with the reference model under the entropy and clock seams");
             }
             if ["C01", "C02", "C09"].contains(&id) {
-                r.rule.push_str("; soak: one operation kind over 1100 (thorough 4200) distinct inputs on one thread, then the early inputs again with own / other / forged counterparts");
+                r.rule.push_str("; soak: one operation kind over 4200 (thorough 66 000) distinct inputs on one thread, then the early inputs again with own / other / forged counterparts");
             }
             if fresh::MFresh::applicable(id) {
                 r.rule.push_str("; fresh-process histories: every sequence of at most two operations (48 kinds x 2 groups: sign / verify / proofs / aggregate / shares / seal / open / decode, consumers fed with reference-made artefacts) run in its own newly started process, the last one - an operation of this property - judged against the reference value or the verdict the property fixes");
